@@ -35,6 +35,10 @@ import GlmVerif.Props.C12.T_l1norm2
 import GlmVerif.Props.C12.T_l2norm
 import GlmVerif.Props.C12.T_lmaxnorm
 import GlmVerif.Props.C12.T_orthonormalize
+import GlmVerif.Props.C12.T_l2norm2
+import GlmVerif.Props.C12.T_lmaxnorm2
+import GlmVerif.Props.C12.T_lxnorm
+import GlmVerif.Props.C12.T_lxnorm2
 /-! every family table of C12 holds for the model generated from the current /repo -/
 namespace Glm.Props.C12
 open Glm Glm.Spec.C12 Glm.Gen.C12
@@ -75,5 +79,9 @@ theorem all_ok : ∀ f ∈ families, f.ok lookup = true := by
     (Family.ok_congr f_l1norm2 (fun ks => by rw [show f_l1norm2.unit = "l1norm2" from rfl, lookup_l1norm2])).trans l1norm2_ok,
     (Family.ok_congr f_l2norm (fun ks => by rw [show f_l2norm.unit = "l2norm" from rfl, lookup_l2norm])).trans l2norm_ok,
     (Family.ok_congr f_lmaxnorm (fun ks => by rw [show f_lmaxnorm.unit = "lmaxnorm" from rfl, lookup_lmaxnorm])).trans lmaxnorm_ok,
-    (Family.ok_congr f_orthonormalize (fun ks => by rw [show f_orthonormalize.unit = "orthonormalize_v" from rfl, lookup_orthonormalize_v])).trans orthonormalize_ok⟩
+    (Family.ok_congr f_orthonormalize (fun ks => by rw [show f_orthonormalize.unit = "orthonormalize_v" from rfl, lookup_orthonormalize_v])).trans orthonormalize_ok,
+    (Family.ok_congr f_l2norm2 (fun ks => by rw [show f_l2norm2.unit = "l2norm2" from rfl, lookup_l2norm2])).trans l2norm2_ok,
+    (Family.ok_congr f_lmaxnorm2 (fun ks => by rw [show f_lmaxnorm2.unit = "lmaxnorm2" from rfl, lookup_lmaxnorm2])).trans lmaxnorm2_ok,
+    (Family.ok_congr f_lxnorm (fun ks => by rw [show f_lxnorm.unit = "lxnorm" from rfl, lookup_lxnorm])).trans lxnorm_ok,
+    (Family.ok_congr f_lxnorm2 (fun ks => by rw [show f_lxnorm2.unit = "lxnorm2" from rfl, lookup_lxnorm2])).trans lxnorm2_ok⟩
 end Glm.Props.C12
